@@ -25,6 +25,7 @@ CONSTANTS Version,        \* "v0" | "v1"
           MaxHeight,      \* number of Updates
           MaxBlock,       \* txs per block
           ReapNs, ReapBs, ReapGs,  \* argument alphabets of the reaps
+          TightDeltas,    \* reap actions with byte limits at (exact encoded prefix size + d), d in this set
           MaxDepth        \* history depth bound for BFS (0 = none)
 
 VARIABLES st, act
@@ -117,6 +118,7 @@ Next ==
   \/ NextCore
   \/ \E n \in ReapNs : DoReapN(n)
   \/ \E b \in ReapBs, g \in ReapGs : DoReapBG(b, g)
+  \/ \E b \in TightBytes(Cfg, st.pool, TightDeltas) : DoReapBG(b, -1)
 
 Spec == Init /\ [][Next]_vars
 
@@ -135,6 +137,8 @@ InvCacheConforms == CacheConforms(st)
 InvReapPrefix ==
   /\ \A n \in ReapNs : ReapPrefixN(Cfg, st.pool, n, ReapN(Cfg, st, n))
   /\ \A b \in ReapBs, g \in ReapGs : ReapPrefixBG(Cfg, st.pool, b, g, ReapBG(Cfg, st, b, g))
+  \* ... and every byte limit tight around the encoded size of a prefix (varint boundaries)
+  /\ \A b \in TightBytes(Cfg, st.pool, TightDeltaAll) : ReapPrefixBG(Cfg, st.pool, b, -1, ReapBG(Cfg, st, b, -1))
 \* structural sanity of the model itself
 TypeOK ==
   /\ st.bytes >= 0 /\ st.rcur \in 0..Len(st.pool) /\ st.rend \in 0..Len(st.pool)
